@@ -311,3 +311,31 @@ claim("C22", "table agreement between sibling trait impls: value kind vs type ki
       "decoder's catch-all discriminator arm rejects; transparent wrappers delegate to the same inner type on every side. Child type ids, "
       "validations, custom-value payloads and hand-written codecs of another shape are not compared (counted as undecided in the evidence); "
       "payload-level agreement for every value is not decided.", level="other")
+
+# clauses added after the mutation campaign (DESIGN.md section 9.2); appended to the claim texts
+ADDENDA = {
+    "C03": "Also decided: every manager entry point that (transitively) drops a bucket stores the new total supply on every path to Ok, locally or through a manager method.",
+    "C04": "Also decided (shared with C10): every take/lock of a caller-chosen amount is behind check_fungible_amount == true.",
+    "C05": "Also decided: in OpenedSubstate::diff / SubstateDiff::from_new_substate every listed own passes the duplicate test.",
+    "C06": "Also decided: cost units of a category are deducted at the tip-inclusive effective price of that category and no other price; the effective prices derive from the base price and the tip multiplier.",
+    "C07": "Also decided: the tracker's rotation and lookup agree on a ring of end-start+1 slots (every end-start is followed by +1; advance wraps exactly at the range end or steps by one).",
+    "C08": "Also decided: require_amount is granted only behind a comparison one operand of which is a single proof's amount().",
+    "C09": "Also decided (shared with C10): lock takes exactly the shortfall, unlock returns exactly the released delta.",
+    "C10": "Also decided: every lock registration passes the comparison with the locked maximum and the shortfall is taken first.",
+    "C11": "Also decided: the auth-zone proof composition siblings test a proof's blueprint before reading it as a typed proof (a genuine defect was found and fixed); audited panic surface of the caller-chosen-Instant comparison path.",
+    "C20": "Also decided: after every read_byte of read_size, Ok(size) is reachable only through `byte != 0` or `first group`.",
+    "C21": "Also decided: in the untyped traverser every child read after a descent is behind the max-depth test.",
+    "C30": "Also decided: the NonFungibleGlobalId display alias is emitted only for tuples of tested length 2.",
+    "C32": "Also decided: no prepare impl builds a set/map by a de-duplicating collect; every decoded child hash passes an insert test whose duplicate arm is doomed.",
+    "C33": "Also decided (shared with C48): the Ed25519 primitive answers true only from verify_strict.",
+    "C35": "Also decided: the yield-count comparison runs only after all yield summaries have been collected.",
+    "C36": "Also decided: every occurrence of a bucket/proof/reservation in an invocation's arguments is consumed (no collapsing collection between the walk and consume_*).",
+    "C40": "Also decided: proofs of the controlled asset are created only behind the primary-role Unlocked arm.",
+    "C41": "Also decided: inside contribute a value is rounded up only where no pool units are in circulation.",
+    "C45": "Also decided: the memory-export predicate tests the export kind and the name.",
+    "C47": "Also decided: the ptr+len bounds sum is formed in a 64-bit type.",
+    "C49": "Also decided: add_event_unchecked is called only by the checked wrapper and lock_fee, whose slot is reserved on every path of start_lock_fee.",
+}
+for _pid, _extra in ADDENDA.items():
+    if _pid in CLAIMED and _extra not in CLAIMED[_pid]["text"]:
+        CLAIMED[_pid]["text"] += " " + _extra
